@@ -143,12 +143,13 @@ def audit_ok(a):
 
 _ABNORMAL = {"n": 0}
 MAX_ABNORMAL = 8
+JOB_LINES = 4000          # at most this many cases per driver process
 
 
-def _run_shard(binary, lines, timeout):
+def _run_shard(binary, lines, timeout, hang_token="HANG"):
     """Runs one driver process over `lines`. impldrv has a per-case watchdog (prints HANG and exits); a driver that dies
-    in the middle of a case yields CRASH for that case; a shard that exceeds `timeout` seconds yields HANG for the case
-    it was on. After MAX_ABNORMAL such events in one run the remaining cases are NOTRUN (a violation is established)."""
+    in the middle of a case yields CRASH for that case; a process that exceeds `timeout` seconds yields `hang_token` for the
+    case it was on. After MAX_ABNORMAL such events in one run the remaining cases are NOTRUN."""
     out = []
     i = 0
     while i < len(lines):
@@ -165,9 +166,10 @@ def _run_shard(binary, lines, timeout):
             p.kill()
             so, _ = p.communicate()
             timed_out = True
-        got = so.decode(errors="replace").split("\n")
-        if got and got[-1] == "":
-            got.pop()
+        text = so.decode(errors="replace")
+        got = text.split("\n")
+        # only complete lines count: what follows the last newline is a line cut short by the kill / crash
+        got.pop()
         got = got[:len(chunk)]
         if len(got) == len(chunk) and not timed_out:
             out.extend(got)
@@ -178,27 +180,31 @@ def _run_shard(binary, lines, timeout):
             i += len(got)          # the watchdog already reported the case it stopped on
         else:
             if len(got) < len(chunk):
-                out.append("HANG" if timed_out else "CRASH")
+                out.append(hang_token if timed_out else "CRASH")
             i += len(got) + 1
     return out
 
 
-def run_driver(binary, lines, timeout=600, shards=NPROC, per_shard=100):
-    """Runs the driver over all lines on up to `shards` processes. Lines are dealt to the shards longest-first
-    (cost grows with input size in the list-based model) and the outputs are put back in input order."""
+def run_driver(binary, lines, timeout=600, shards=NPROC, per_shard=100, hang_token="HANG"):
+    """Runs the driver over all lines in jobs of bounded size on up to `shards` processes at a time (so that the per-process
+    timeout bounds a bounded amount of work whatever the tier). Lines are dealt to the jobs longest-first (cost grows with
+    input size in the list-based model) and the outputs are put back in input order."""
     if not lines:
         return []
     _ABNORMAL["n"] = 0
-    n = max(1, min(shards, (len(lines) + per_shard - 1) // per_shard))
+    njobs = max(1, min(shards, (len(lines) + per_shard - 1) // per_shard))
+    njobs = max(njobs, (len(lines) + JOB_LINES - 1) // JOB_LINES)
     order = sorted(range(len(lines)), key=lambda k: -len(lines[k]))
-    buckets = [[] for _ in range(n)]
-    loads = [0] * n
+    buckets = [[] for _ in range(njobs)]
+    loads = [0] * njobs
+    import heapq
+    heap = [(0, b) for b in range(njobs)]
     for k in order:
-        b = loads.index(min(loads))
+        load, b = heapq.heappop(heap)
         buckets[b].append(k)
-        loads[b] += 50 + len(lines[k]) + (len(lines[k]) // 64) ** 2
-    with ThreadPoolExecutor(max_workers=n) as ex:
-        outs = list(ex.map(lambda idxs: _run_shard(binary, [lines[k] for k in idxs], timeout), buckets))
+        heapq.heappush(heap, (load + 50 + len(lines[k]) + (len(lines[k]) // 64) ** 2, b))
+    with ThreadPoolExecutor(max_workers=shards) as ex:
+        outs = list(ex.map(lambda idxs: _run_shard(binary, [lines[k] for k in idxs], timeout, hang_token), buckets))
     res = [None] * len(lines)
     for idxs, o in zip(buckets, outs):
         assert len(o) == len(idxs), (len(o), len(idxs))
